@@ -1047,7 +1047,7 @@ func main() {
 			"node identity = SHA-256(SPKI||subject), certificate identity = SHA-256(DER) (both asserted equal to zcrypto's at start-up)",
 			"VerifDump (hook, tag verif) faithfully reports the unexported fields; the public accessors are checked against the same expectations independently",
 			"one key (K3) appears under two subject names (N_I, N_Y): a node that verifies a certificate without carrying its issuer name is not a candidate issuer",
-		"no two distinct (subject,SPKI) nodes with the issuer name verify the same certificate in this universe, so the permitted issuer ambiguity never arises (asserted: outcome class 'several candidate issuers' stays 0)")
+			"no two distinct (subject,SPKI) nodes with the issuer name verify the same certificate in this universe, so the permitted issuer ambiguity never arises (asserted: outcome class 'several candidate issuers' stays 0)")
 		var legend []string
 		for _, uc := range ed.certs {
 			legend = append(legend, uc.name+": "+uc.what)
@@ -1108,7 +1108,9 @@ func main() {
 
 		// Part A: 7-element sub-universes, depth 8 (one more than 7: the search then closes, every
 		// reachable state has had every operation applied).
-		runSubs(ed, handPicked, 8)
+		// (the two sub-universes with the key under two names first: a budget stop must not drop them)
+		runSubs(ed, handPicked[12:], 8)
+		runSubs(ed, handPicked[:12], 8)
 		if !c.Quick() {
 			// twin shapes: the CA keys K1..K6 are RSA (zcrypto's own rsa package verifies) resp. ECDSA on
 			// four different curves (a waiting edge is then also tried against keys of another curve).
